@@ -5,6 +5,7 @@ import (
 	"fmt"
 	"net/http"
 	"strings"
+	"testing/synctest"
 	"time"
 
 	"kvassverif/core"
@@ -222,6 +223,43 @@ func c12Bubble(tp *core.Tape, e *core.Env) (ops []string) {
 		}
 		if gotCE != "" {
 			e.Violate("content-encoding", "", "decompressed body delivered with Content-Encoding %q", gotCE)
+		}
+	}
+	// two gzip scrapes of different targets in flight at the same time (after at least one earlier gzip
+	// scrape went through the same process): each must still get exactly its own target's body
+	if !e.Failed() && tp.Bool("overlapping_gzip_scrapes", 1, 3) {
+		mk := func(seed int) []byte { return Render(GenSamples(tp, 30+seed), false, false, false) }
+		warm, pa, pb := mk(0), mk(7), mk(13)
+		n.Targets.Set(TargetHost(101), &sidecarsim.TargetSpec{Payload: warm, Gzip: true})
+		n.SC.Scrape(&shortWriter{hdr: http.Header{}}, ScrapeURLFor(101, "j0"))
+		pause := make(chan struct{})
+		wireA := len(sidecarsim.Gzip(pa))
+		n.Targets.Set(TargetHost(101), &sidecarsim.TargetSpec{Payload: pa, Gzip: true, Pause: pause, PauseAt: 1 + tp.Choose("pause_at", wireA-1)})
+		n.Targets.Set(TargetHost(102), &sidecarsim.TargetSpec{Payload: pb, Gzip: true})
+		wa, wb := &shortWriter{hdr: http.Header{}}, &shortWriter{hdr: http.Header{}}
+		var abortedA bool
+		done := make(chan struct{})
+		go func() {
+			defer close(done)
+			abortedA = n.SC.Scrape(wa, ScrapeURLFor(101, "j0"))
+		}()
+		synctest.Wait()
+		abortedB := n.SC.Scrape(wb, ScrapeURLFor(102, "j1"))
+		close(pause)
+		<-done
+		e.Probe("overlapping_gzip_scrapes")
+		e.Key("overlapping-gzip", "assigned", "gzip=true", "writer")
+		for _, x := range []struct {
+			name    string
+			aborted bool
+			w       *shortWriter
+			want    []byte
+		}{{"the scrape that was paused mid-body", abortedA, wa, pa}, {"the scrape that overtook it", abortedB, wb, pb}} {
+			if x.aborted || (x.w.code != 0 && x.w.code != 200) {
+				e.Violate("delivery", "via=writer,class=overlapping-gzip", "two gzip scrapes in flight at once: %s was successful at the target (%d bytes) but the proxy failed it (status %d, aborted %v)", x.name, len(x.want), x.w.code, x.aborted)
+			} else if !bytes.Equal(x.w.body.Bytes(), x.want) {
+				e.Violate("bytes-differ", "first-diff=overlapping-gzip", "two gzip scrapes in flight at once: %s got %d bytes that are not its target's %d bytes", x.name, x.w.body.Len(), len(x.want))
+			}
 		}
 	}
 	e.AddSim(time.Since(start))
